@@ -56,11 +56,11 @@ type softStat struct {
 
 func main() {
 	tsh.Main("C17", "exploration", 12*time.Minute, func(r *vlib.Run) {
-		r.Rule("RunT calls with Params.Deadline 0.4 / 0.7 / 1.2 / 2 / 3 / 5 / 8 s ahead (round-robin) and 1-6 scripts each, mixing foreground commands that block for ever (die on the interrupt), trap the interrupt and exit, ignore the interrupt (must be killed), exit at about the moment the context expires, scripts that finish early, scripts with SIGINT-terminable background jobs, and scripts blocked in 'wait' for a background job that never ends. Evaluations = scripts run; distinct non-trivial = distinct (deadline distance, multiset of script kinds) cases containing at least one blocked script.")
+		r.Rule("RunT calls with Params.Deadline 0.4 / 0.7 / 1.2 / 2 / 3 / 5 / 8 s ahead (round-robin) and 1-6 scripts each, mixing foreground commands that block for ever (die on the interrupt), trap the interrupt and exit, ignore the interrupt (must be killed), exit at about the moment the context expires, scripts that finish early, scripts with SIGINT-terminable background jobs, and scripts blocked in 'wait' for a background job that never ends. Three ways of running them: subtests released as soon as RunT returned (plain), released 20-35% of the distance later (the parent test keeps working; the deadline stays where it is), and under a T that runs subtests one after another (scripts after the first blocked one start with the context already expired). Evaluations = scripts run; distinct non-trivial = distinct (deadline distance, multiset of script kinds) cases containing at least one blocked script.")
 		r.Assume("grace = max(100 ms, (deadline - start)/20) as documented in RunT; eps = 20 ms for the difference between the harness' and RunT's reading of the clock; lateness (soft bounds, slack 150 ms) is judged only in cases whose calibration goroutine and calibration helper were never more than 30 ms late, and is a violation only when the same bound is breached, for one deadline distance, in >= 3 quiet cases and >= 80% of the quiet cases exercising it at that distance; a regression that makes cleanup late by less than 150 ms is not detected")
 		base := vlib.Scratch()
 		rng := r.Rand("cases")
-		ncases := r.Pick(42, 280)
+		ncases := r.Pick(56, 280)
 		// grace is 100 ms up to a 2 s distance and 5% of the distance beyond: both regimes are needed
 		distances := []time.Duration{400 * time.Millisecond, 700 * time.Millisecond, 1200 * time.Millisecond, 2 * time.Second, 3 * time.Second, 5 * time.Second, 8 * time.Second}
 		var mu sync.Mutex
@@ -82,10 +82,20 @@ func main() {
 			dist time.Duration
 			spec []scriptSpec
 			seed int64
+			mode string // plain | delayed (the parent keeps working after RunT returned, the scripts start late) | sequential (a T that runs subtests one after another)
 		}
 		var jobs []job
 		for i := 0; i < ncases; i++ {
-			jobs = append(jobs, job{idx: i, dist: distances[i%len(distances)], seed: rng.Int63()})
+			jb := job{idx: i, dist: distances[i%len(distances)], seed: rng.Int63(), mode: "plain"}
+			switch (i / len(distances)) % 4 {
+			case 1:
+				if jb.dist >= 1200*time.Millisecond { // the start delay must exceed the slack of the soft bounds
+					jb.mode = "delayed"
+				}
+			case 3:
+				jb.mode = "sequential"
+			}
+			jobs = append(jobs, jb)
 		}
 		runCase := func(jb job) {
 			crng := rand.New(rand.NewSource(jb.seed))
@@ -98,13 +108,29 @@ func main() {
 			var files []string
 			anyBlocked := false
 			// exitat needs the absolute expiry time: computed below once the deadline is fixed; placeholder first
+			firstBlocked := -1
 			for i := 0; i < n; i++ {
 				k := kinds[crng.Intn(len(kinds))]
-				if i == 0 && k == "early" {
+				if i == 0 && k == "early" && jb.mode != "sequential" {
 					k = "block"
+				}
+				if k == "early" && jb.dist < 1200*time.Millisecond {
+					k = "block" // an "early" script needs a budget (distance - 2 grace periods) that two process starts fit into even on a loaded machine
+				}
+				if jb.mode == "sequential" {
+					// scripts run one after another: those after the first blocked one only start
+					// once the context has expired, so they are plain blockers (stopped at once)
+					if firstBlocked >= 0 {
+						k = "block"
+					} else if i == n-1 && k == "early" {
+						k = "trapquit"
+					}
 				}
 				if k != "early" {
 					anyBlocked = true
+					if firstBlocked < 0 {
+						firstBlocked = i
+					}
 				}
 				specs = append(specs, scriptSpec{Name: fmt.Sprintf("s%d%s", i, k), Kind: k, Pid: filepath.Join(dir, fmt.Sprintf("pid%d", i))})
 			}
@@ -177,15 +203,29 @@ func main() {
 				files = append(files, f)
 			}
 			p := testscript.Params{Files: files, Deadline: deadline}
-			root := tsh.NewRoot(tsh.Style(jb.idx%2), false, true)
-			root.Run("batch", func(t testscript.T) { testscript.RunT(t, p) })
-			monoAfterRunT := vlib.MonoNow()
-			graceLo := time.Duration(monoDeadline-monoAfterRunT) / 20
+			root := tsh.NewRoot(tsh.Style(jb.idx%2), false, jb.mode != "sequential")
+			finished := make(chan struct{})
+			var graceLo time.Duration
+			if jb.mode == "sequential" {
+				// RunT only returns when every script has run: it reads the clock within eps of monoStart
+				graceLo = (jb.dist - eps) / 20
+				go func() {
+					root.Run("batch", func(t testscript.T) { testscript.RunT(t, p) })
+					close(finished)
+				}()
+			} else {
+				root.Run("batch", func(t testscript.T) { testscript.RunT(t, p) })
+				monoAfterRunT := vlib.MonoNow()
+				graceLo = time.Duration(monoDeadline-monoAfterRunT) / 20
+				if jb.mode == "delayed" {
+					// the parent test keeps working for a while: the scripts start late, the deadline stays
+					time.Sleep(time.Duration(float64(jb.dist) * (0.2 + 0.15*crng.Float64())))
+				}
+				go func() { root.Subs[0].Release(); close(finished) }()
+			}
 			if graceLo < 100*time.Millisecond {
 				graceLo = 100 * time.Millisecond
 			}
-			finished := make(chan struct{})
-			go func() { root.Subs[0].Release(); close(finished) }()
 			mk := func(kind, detail, log string) {
 				report(kind, dcase{kind, jb.idx, jb.dist.String(), graceHi.String(), specs, detail, log})
 			}
@@ -214,7 +254,11 @@ func main() {
 					return
 				}
 				// judged per deadline distance: a defect may only show in one grace regime
-				name = fmt.Sprintf("%s@%v", name, jb.dist)
+				if jb.mode == "plain" {
+					name = fmt.Sprintf("%s@%v", name, jb.dist)
+				} else {
+					name = fmt.Sprintf("%s@%s", name, jb.mode) // pooled over the distances
+				}
 				mu.Lock()
 				st := soft[name]
 				if st == nil {
@@ -255,7 +299,12 @@ func main() {
 				switch sp.Kind {
 				case "early":
 					if v != "pass" {
-						mk("early-script-affected-by-deadline", fmt.Sprintf("script %s finishes long before the deadline but was reported as %s", sp.Name, v), log)
+						if sub.EndMono < expiryLo-int64(eps) {
+							mk("early-script-affected-by-deadline", fmt.Sprintf("script %s finishes long before the deadline but was reported as %s, %v before the context could have expired", sp.Name, v, time.Duration(expiryLo-sub.EndMono)), log)
+						} else {
+							// the machine was too slow for the script to finish inside its budget: nothing is decided
+							r.Count("early_scripts_that_overran_their_budget", 1)
+						}
 					}
 					continue
 				case "exitat":
@@ -322,7 +371,8 @@ func main() {
 				for _, s := range specs {
 					ks = append(ks, s.Kind)
 				}
-				r.Distinct(fmt.Sprintf("%v|%v", jb.dist, ks))
+				r.Distinct(fmt.Sprintf("%v|%s|%v", jb.dist, jb.mode, ks))
+				r.Count("cases_"+jb.mode, 1)
 				for _, s := range specs {
 					if strings.HasPrefix(s.Text, "! exec") {
 						r.Count("negated_blocked_commands", 1)
@@ -330,7 +380,7 @@ func main() {
 				}
 			}
 			if jb.idx < 2 {
-				r.Sample(map[string]any{"kind": "case", "deadline_distance": jb.dist.String(), "scripts": specs, "max_calibration_lateness": time.Duration(atomic.LoadInt64(&maxLate)).String()})
+				r.Sample(map[string]any{"kind": "case", "mode": jb.mode, "deadline_distance": jb.dist.String(), "scripts": specs, "max_calibration_lateness": time.Duration(atomic.LoadInt64(&maxLate)).String()})
 			}
 		}
 		vlib.Parallel(len(jobs), 8, func(i int) { runCase(jobs[i]) })
